@@ -190,238 +190,39 @@ pub proof fn lemma_listing_first_is_oldest(s: Seq<PeerRow>, set: Set<PeerRow>)
     }
 }
 
-pub proof fn lemma_row_total(a: PeerRow, b: PeerRow)
-    ensures peer_row_lt(a, b) || a == b || peer_row_lt(b, a)
+/// consequences of one step for the invariant and the membership clauses (no clock assumption needed)
+pub proof fn lemma_step_facts(old: Set<PeerRow>, new: Set<PeerRow>, nanos: u64, p: Seq<u8>)
+    requires peers_inv(old), reg_step(old, new, nanos, p)
+    ensures
+        peers_inv(new), //# peers.step.keeps-invariant
+        new.contains((nanos, p)), //# peers.step.peer-present
+        new.len() == (if has_peer(old, p) || old.len() + 1 > 5 { old.len() } else { old.len() + 1 }), //# peers.step.size
+        forall|e: PeerRow| #[trigger] old.contains(e) && e.1 != p ==> new.contains(e) || (is_oldest(old, e) && old.len() >= 5 && !has_peer(old, p)), //# peers.step.others-stay-unless-evicted
+        forall|e: PeerRow| #[trigger] new.contains(e) ==> e == (nanos, p) || (old.contains(e) && e.1 != p), //# peers.step.nothing-else-added
 {
-    lemma_lex_total(a.1, b.1);
-    if a.0 == b.0 && a.1 =~= b.1 { assert(a == b); }
-}
-
-/// every finite set of rows has a greatest row
-pub proof fn lemma_max_exists(set: Set<PeerRow>)
-    requires set.finite(), set.len() > 0
-    ensures exists|m: PeerRow| #[trigger] set.contains(m) && (forall|x: PeerRow| #[trigger] set.contains(x) ==> peer_row_le(x, m))
-    decreases set.len()
-{
-    let e = set.choose();
-    let rest = set.remove(e);
-    if rest.len() == 0 {
-        assert forall|x: PeerRow| #[trigger] set.contains(x) implies peer_row_le(x, e) by {
-            if x != e { assert(rest.contains(x)); assert(rest =~= Set::<PeerRow>::empty()); }
-        }
-        assert(set.contains(e));
-    } else {
-        lemma_max_exists(rest);
-        let m0 = choose|m: PeerRow| #[trigger] rest.contains(m) && (forall|x: PeerRow| #[trigger] rest.contains(x) ==> peer_row_le(x, m));
-        lemma_row_total(m0, e);
-        let m = if peer_row_lt(m0, e) { e } else { m0 };
-        assert forall|x: PeerRow| #[trigger] set.contains(x) implies peer_row_le(x, m) by {
-            if x != e {
-                assert(rest.contains(x));
-                assert(peer_row_le(x, m0));
-                if peer_row_lt(m0, e) && x != m0 { lemma_row_lt_trans(x, m0, e); }
-            }
-        }
-        assert(set.contains(m));
-    }
-}
-
-/// every finite set of rows has an ascending listing (so `peer_list` is determined for every finite set)
-pub proof fn lemma_listing_exists(set: Set<PeerRow>)
-    requires set.finite()
-    ensures exists|s: Seq<PeerRow>| peers_listing(s, set)
-    decreases set.len()
-{
-    if set.len() == 0 {
-        let s = Seq::<PeerRow>::empty();
-        assert(set =~= Set::<PeerRow>::empty());
-        assert(peers_listing(s, set));
-    } else {
-        lemma_max_exists(set);
-        let m = choose|m: PeerRow| #[trigger] set.contains(m) && (forall|x: PeerRow| #[trigger] set.contains(x) ==> peer_row_le(x, m));
-        let rest = set.remove(m);
-        lemma_listing_exists(rest);
-        let s0 = choose|s: Seq<PeerRow>| peers_listing(s, rest);
-        let s = s0.push(m);
-        assert forall|i: int, j: int| 0 <= i < j < s.len() implies peer_row_lt(#[trigger] s[i], #[trigger] s[j]) by {
-            if j == s0.len() { assert(rest.contains(s0[i])); assert(set.contains(s0[i])); assert(peer_row_le(s0[i], m)); }
-        }
-        assert forall|i: int| 0 <= i < s.len() implies set.contains(#[trigger] s[i]) by {
-            if i < s0.len() { assert(rest.contains(s0[i])); }
-        }
-        assert forall|e: PeerRow| set.contains(e) implies exists|i: int| 0 <= i < s.len() && #[trigger] s[i] == e by {
-            if e == m { assert(s[s0.len() as int] == e); }
-            else { assert(rest.contains(e)); let i = choose|i: int| 0 <= i < s0.len() && s0[i] == e; assert(s[i] == e); }
-        }
-        assert(peers_listing(s, set));
-    }
-}
-
-// ---- lemmas about list_without ----
-
-pub proof fn lemma_without_absent(l: Seq<Seq<u8>>, p: Seq<u8>)
-    requires forall|i: int| 0 <= i < l.len() ==> l[i] != p
-    ensures list_without(l, p) == l
-    decreases l.len()
-{
-    if l.len() > 0 {
-        let t = l.skip(1);
-        assert forall|i: int| 0 <= i < t.len() implies t[i] != p by { assert(t[i] == l[i + 1]); }
-        lemma_without_absent(t, p);
-        assert(l =~= seq![l[0]] + t);
-    }
-}
-
-pub proof fn lemma_without_single(l: Seq<Seq<u8>>, p: Seq<u8>, k: int)
-    requires 0 <= k < l.len(), l[k] == p, forall|i: int| 0 <= i < l.len() && i != k ==> l[i] != p
-    ensures list_without(l, p) == l.remove(k)
-    decreases l.len()
-{
-    let t = l.skip(1);
-    if k == 0 {
-        assert forall|i: int| 0 <= i < t.len() implies t[i] != p by { assert(t[i] == l[i + 1]); }
-        lemma_without_absent(t, p);
-        assert(l.remove(0) =~= t);
-    } else {
-        assert(t[k - 1] == l[k]);
-        assert forall|i: int| 0 <= i < t.len() && i != k - 1 implies t[i] != p by { assert(t[i] == l[i + 1]); }
-        lemma_without_single(t, p, k - 1);
-        assert(l.remove(k) =~= seq![l[0]] + t.remove(k - 1));
-    }
-}
-
-/// the oldest row is the first row of the listing
-pub proof fn lemma_oldest_is_first(s: Seq<PeerRow>, set: Set<PeerRow>, o: PeerRow)
-    requires peers_listing(s, set), is_oldest(set, o)
-    ensures s.len() > 0, s[0] == o
-{
-    let i = choose|i: int| 0 <= i < s.len() && s[i] == o;
-    if i > 0 {
-        assert(set.contains(s[0]));
-        assert(peer_row_le(o, s[0]));
-        assert(peer_row_lt(s[0], s[i]));
-        lemma_row_lt_asym(s[0], o);
-        lemma_row_lt_irrefl(o);
-    }
-}
-
-/// One registration on the list, given A-clock for this call (the reading is later than every stored stamp):
-/// the new list is the old one with `p` moved/put to the front, cut to five.
-pub proof fn lemma_list_step(old: Set<PeerRow>, new: Set<PeerRow>, nanos: u64, p: Seq<u8>)
-    requires peers_inv(old), reg_step(old, new, nanos, p), clock_fresh(old, nanos)
-    ensures peer_list(new) == list_step(peer_list(old), p)
-{
-    lemma_listing_exists(old);
-    let so = choose|s: Seq<PeerRow>| peers_listing(s, old);
-    lemma_peer_list_of(so, old);
-    lemma_listing_no_dup(so, old);
-    let n = so.len() as int;
     let row = (nanos, p);
-    let lo = mrf(so);
-    assert forall|i: int| 0 <= i < n implies peer_row_lt(#[trigger] so[i], row) by { assert(old.contains(so[i])); }
     if has_peer(old, p) {
         let prev = choose|prev: PeerRow| #[trigger] is_oldest_of_peer(old, p, prev) && new =~= old.remove(prev).insert(row);
-        let j = choose|j: int| 0 <= j < n && so[j] == prev;
-        let sn = so.remove(j).push(row);
-        assert forall|i: int| 0 <= i < n - 1 implies (#[trigger] so.remove(j)[i]) == (if i < j { so[i] } else { so[i + 1] }) by { }
-        assert(peers_listing(sn, new)) by {
-            assert forall|a: int, b: int| 0 <= a < b < sn.len() implies peer_row_lt(#[trigger] sn[a], #[trigger] sn[b]) by {
-                let xa = if a < j { a } else { a + 1 };
-                assert(sn[a] == so[xa]);
-                if b < n - 1 { let xb = if b < j { b } else { b + 1 }; assert(sn[b] == so[xb]); assert(peer_row_lt(so[xa], so[xb])); }
-                else { assert(sn[b] == row); }
-            }
-            assert forall|i: int| 0 <= i < sn.len() implies new.contains(#[trigger] sn[i]) by {
-                if i < n - 1 {
-                    let xi = if i < j { i } else { i + 1 };
-                    assert(sn[i] == so[xi]);
-                    assert(old.contains(so[xi]));
-                    assert(so[xi] != so[j]);
-                }
-            }
-            assert forall|e: PeerRow| new.contains(e) implies exists|i: int| 0 <= i < sn.len() && #[trigger] sn[i] == e by {
-                if e == row { assert(sn[n - 1] == e); }
-                else {
-                    assert(old.contains(e));
-                    let i = choose|i: int| 0 <= i < n && so[i] == e;
-                    assert(i != j);
-                    let y = if i < j { i } else { i - 1 };
-                    assert(sn[y] == e);
-                }
-            }
-        }
-        lemma_peer_list_of(sn, new);
-        // the old list holds p exactly once, at position n-1-j
-        let k = n - 1 - j;
-        assert(lo[k] == p);
-        assert forall|i: int| 0 <= i < lo.len() && i != k implies lo[i] != p by {
-            let x = so[n - 1 - i];
-            assert(old.contains(x));
-            if x.1 == p { assert(old.contains(prev)); assert(x == prev); }
-        }
-        lemma_without_single(lo, p, k);
-        assert(mrf(sn) =~= seq![p] + lo.remove(k)) by {
-            assert forall|i: int| 0 <= i < n implies mrf(sn)[i] == (seq![p] + lo.remove(k))[i] by {
-                if i > 0 {
-                    let a = n - 1 - i;   // index into sn, < n-1
-                    let xa = if a < j { a } else { a + 1 };
-                    assert(sn[a] == so[xa]);
-                }
-            }
-        }
+        assert forall|x: PeerRow| old.contains(x) && x.1 == p implies x == prev by { }
+        assert(!old.remove(prev).contains(row));
+        assert(new.len() == old.len());
     } else if old.len() + 1 > 5 {
         let o = choose|o: PeerRow| #[trigger] is_oldest(old, o) && new =~= old.insert(row).remove(o);
-        lemma_oldest_is_first(so, old, o);
-        let sn = so.skip(1).push(row);
         assert(!old.contains(row)) by { if old.contains(row) { assert(has_peer(old, p)); } }
-        assert(peers_listing(sn, new)) by {
-            assert forall|a: int, b: int| 0 <= a < b < sn.len() implies peer_row_lt(#[trigger] sn[a], #[trigger] sn[b]) by {
-                assert(sn[a] == so[a + 1]);
-                if b < n - 1 { assert(sn[b] == so[b + 1]); assert(peer_row_lt(so[a + 1], so[b + 1])); } else { assert(sn[b] == row); }
-            }
-            assert forall|i: int| 0 <= i < sn.len() implies new.contains(#[trigger] sn[i]) by {
-                if i < n - 1 { assert(sn[i] == so[i + 1]); assert(old.contains(so[i + 1])); assert(so[i + 1] != so[0]); }
-            }
-            assert forall|e: PeerRow| new.contains(e) implies exists|i: int| 0 <= i < sn.len() && #[trigger] sn[i] == e by {
-                if e == row { assert(sn[n - 1] == e); }
-                else { let i = choose|i: int| 0 <= i < n && so[i] == e; assert(i != 0); assert(sn[i - 1] == e); }
-            }
-        }
-        lemma_peer_list_of(sn, new);
-        assert forall|i: int| 0 <= i < lo.len() implies lo[i] != p by {
-            let x = so[n - 1 - i]; assert(old.contains(x));
-        }
-        lemma_without_absent(lo, p);
-        assert(n == 5);
-        assert(mrf(sn) =~= (seq![p] + lo).take(5)) by {
-            assert forall|i: int| 0 <= i < 5 implies mrf(sn)[i] == (seq![p] + lo).take(5)[i] by {
-                if i > 0 { assert(sn[n - 1 - i] == so[n - i]); }
-            }
+        assert(o != row);
+        assert(old.insert(row).len() == old.len() + 1);
+        assert(new.len() == old.len());
+        assert forall|a: PeerRow, b: PeerRow| #[trigger] new.contains(a) && #[trigger] new.contains(b) && a.1 == b.1 implies a == b by {
+            if a == row && b != row { assert(old.contains(b)); assert(has_peer(old, p)); }
+            if b == row && a != row { assert(old.contains(a)); assert(has_peer(old, p)); }
         }
     } else {
-        let sn = so.push(row);
         assert(!old.contains(row)) by { if old.contains(row) { assert(has_peer(old, p)); } }
-        assert(peers_listing(sn, new)) by {
-            assert forall|a: int, b: int| 0 <= a < b < sn.len() implies peer_row_lt(#[trigger] sn[a], #[trigger] sn[b]) by {
-                if b < n { assert(peer_row_lt(so[a], so[b])); }
-            }
-            assert forall|i: int| 0 <= i < sn.len() implies new.contains(#[trigger] sn[i]) by {
-                if i < n { assert(old.contains(so[i])); }
-            }
-            assert forall|e: PeerRow| new.contains(e) implies exists|i: int| 0 <= i < sn.len() && #[trigger] sn[i] == e by {
-                if e == row { assert(sn[n] == e); }
-                else { let i = choose|i: int| 0 <= i < n && so[i] == e; assert(sn[i] == e); }
-            }
-        }
-        lemma_peer_list_of(sn, new);
-        assert forall|i: int| 0 <= i < lo.len() implies lo[i] != p by {
-            let x = so[n - 1 - i]; assert(old.contains(x));
-        }
-        lemma_without_absent(lo, p);
-        assert(mrf(sn) =~= seq![p] + lo) by {
-            assert forall|i: int| 0 <= i < n + 1 implies mrf(sn)[i] == (seq![p] + lo)[i] by {
-                if i > 0 { assert(sn[n - i] == so[n - i]); }
-            }
+        assert(new.len() == old.len() + 1);
+        assert forall|a: PeerRow, b: PeerRow| #[trigger] new.contains(a) && #[trigger] new.contains(b) && a.1 == b.1 implies a == b by {
+            if a == row && b != row { assert(old.contains(b)); assert(has_peer(old, p)); }
+            if b == row && a != row { assert(old.contains(a)); assert(has_peer(old, p)); }
         }
     }
 }
+
